@@ -41,11 +41,15 @@ ItemList == <<
     Bad(It("c2", "scoped", 0, "a", "ctorerr"), "retprov"),
     Bad(It("c3", "singleton", 0, "a", "ctorerr"), "asctx"),
     Bad(It("c4", "singleton", 0, "a", "ctorerr"), "multiscope"),
-    Bad(It("c5", "transient", 0, "a", "ctorerr"), "outprov") >>
+    Bad(It("c5", "transient", 0, "a", "ctorerr"), "outprov"),
+    \* ... and in a secondary position that is also a group member
+    Bad(It("c6", "singleton", 3, "a", "ctorerr"), "outctxgroup"),     \* Out{S3; context.Context `group:"g"`}
+    Bad(It("c7", "scoped", 3, "a", "ctorerr"), "multiscopegroup"),    \* (S3, Scope) + Group("g")
+    Bad(It("c8", "singleton", 0, "a", "ctorerr"), "asctxgroup") >>    \* As[context.Context] + Group("g")
 Items == [id \in {ItemList[i].id : i \in DOMAIN ItemList} |-> ItemList[CHOOSE i \in DOMAIN ItemList : ItemList[i].id = id]]
 ItemIds == DOMAIN Items
 ModItems == {"a1", "a2", "a3", "a5", "a6", "b1", "b2"}
-Chains == {<<>>, <<"m1">>, <<"m1", "m2">>, <<"m2">>}
+Chains == {<<>>, <<"m1">>, <<"m1", "m2">>, <<"m2">>, <<"m1", "m1">>}     \* incl. a module nested in a module of the same name
 RmTypes == {"S0", "S1", "I0"}
 
 Init == rs = RInit(Items) /\ hist = <<>>
